@@ -547,6 +547,62 @@ def run(ctx):
                         ctx.violation("%s raised %s while being driven" % (kind, type(e).__name__),
                                       {"kind": "impl-exception", "config": cfg, "error": repr(e),
                                        "traceback": traceback.format_exc()[-1500:]}, signature=sig)
+    # an Alg object that already received k manual updates and is THEN wrapped in an App: run() performs exactly the remaining
+    # max_iter - k updates and iter keeps counting every update
+    for i in range(ctx.n(12, 120)):
+        npseed = rng.randrange(2 ** 31)
+        kind = KINDS[i % len(KINDS)]
+        max_iter = 2 + i % 5
+        k0 = 1 + i % max_iter
+        cfg = dict(kind=kind, variant=i % 4, max_iter=max_iter, npseed=npseed, manual_updates_before_App=k0)
+        probs = []
+        try:
+            inst = build(sp, kind, i % 4, max_iter, npseed)
+            alg = inst.alg
+            n_upd = [0]
+            orig = alg.update
+
+            def counted(orig=orig, n_upd=n_upd):
+                n_upd[0] += 1
+                return orig()
+            alg.update = counted
+            for _ in range(k0):
+                if not alg.done():
+                    alg.update()
+            before = n_upd[0]
+            app = sp.app.App(alg, show_pbar=False)
+            app.run()
+            if n_upd[0] > max_iter:
+                probs.append(("app-bound", "%d updates in total (%d before the App, %d by App.run) with max_iter = %d" % (n_upd[0], before, n_upd[0] - before, max_iter), {}))
+            if int(alg.iter) != n_upd[0]:
+                probs.append(("iter-count", "iter = %d after %d updates (%d of them before the App was built)" % (int(alg.iter), n_upd[0], before), {}))
+        except Exception as e:
+            probs.append(("app-exception", "%s wrapped in an App after manual updates raised %s" % (kind, type(e).__name__), {"error": repr(e)}))
+        report(kind, cfg, probs)
+        ctx.count(kind + ":App-after-manual-updates", key=(npseed, k0, max_iter), nontrivial=True)
+    # JsenseRecon: max_iter bounds the OUTER alternating updates, max_inner_iter the inner least-squares solves
+    try:
+        import sigpy.mri as mr
+        for i, (mo, mi_) in enumerate([(0, 3), (1, 4), (3, 1), (2, 5), (4, 2)][:ctx.n(3, 5)]):
+            nprng = np.random.default_rng(1000 + i)
+            ksp = (nprng.standard_normal((2, 8, 8)) + 1j * nprng.standard_normal((2, 8, 8)))
+            app = mr.app.JsenseRecon(ksp, mps_ker_width=4, ksp_calib_width=6, max_iter=mo, max_inner_iter=mi_, show_pbar=False)
+            n_upd = [0]
+            orig = app.alg.update
+
+            def counted2(orig=orig, n_upd=n_upd):
+                n_upd[0] += 1
+                return orig()
+            app.alg.update = counted2
+            app.run()
+            cfg = dict(kind="JsenseRecon", max_iter=mo, max_inner_iter=mi_)
+            probs = []
+            if n_upd[0] != mo or int(app.alg.iter) != n_upd[0]:
+                probs.append(("app-bound", "JsenseRecon(max_iter=%d, max_inner_iter=%d).run() performed %d outer updates (iter = %d)" % (mo, mi_, n_upd[0], int(app.alg.iter)), {}))
+            report("JsenseRecon", cfg, probs)
+            ctx.count("JsenseRecon:App.run", key=(mo, mi_), nontrivial=mo > 0)
+    except Exception as e:
+        report("JsenseRecon", dict(kind="JsenseRecon"), [("app-exception", "JsenseRecon raised %s" % type(e).__name__, {"error": repr(e)})])
     # the LinearLeastSquares app with a caller-supplied x: run() returns the solution the algorithm holds, also when the caller's
     # array is narrower than the data (float32 x with float64 y, complex64 with complex128)
     for i in range(ctx.n(24, 300)):
